@@ -388,12 +388,9 @@ def evalCondL (l : Local) (toks : List Tok) : Bool × Local :=
   match l.err with
   | some _ => (false, l)
   | none =>
-    match runExpand l.plat.tbl toks with
-    | .ok ts => match CbiVerif.Eval.evaluatePP ts with
-      | .ok b => (b, l)
-      | .error e => (false, l.fail e)
+    match condValue l.plat.tbl toks with
+    | .ok b => (b, l)
     | .error e => (false, l.fail e)
-    | .sig s => (false, l.fail (.other s))
 
 /-- one node of `associate` (same case analysis as `PP.visitW`), without the recursion -/
 def stepNode (fs : FSMap) (file : String) (idx : Nat) (n : PNode) (l0 : Local) : Local × Act :=
@@ -418,7 +415,7 @@ def stepNode (fs : FSMap) (file : String) (idx : Nat) (n : PNode) (l0 : Local) :
       match includePath n.toks with
       | some r => .ok r
       | none =>
-        match runExpand l.plat.tbl n.toks with
+        match runExpandT l.plat.tbl n.toks with
         | .ok ts => match includePath ts with | some r => .ok r | none => .error (.parse "Invalid path.")
         | .error e => .error e
         | .sig s => .error (.other s)
